@@ -38,6 +38,9 @@ for f in sorted(glob.glob(os.path.join(ROOT, "seeded", "*", "meta.json"))):
                 f"`{first[:70]}` | {und or ''} |")
 n = len(rows)
 det = sum(1 for r in rows if "**missed**" not in r)
+n_obl = sum(1 for r in rows if "| obligation" in r)
+n_both = sum(1 for r in rows if "| obligation + stand-in |" in r)
+n_std = sum(1 for r in rows if "stand-in |" in r)
 text = f"""### 11.6 Seeded changes (`/verif/seeded/<id>/`) and which check catches which
 
 Each change was written by a fresh sub-agent that saw only the text of one property and
@@ -57,7 +60,9 @@ The raw logs of the confirmation runs are in `seeded/logs/`.
 {det} of {n} confirmed changes are reported by the quick tier of the check of their own
 property. "obligation" = a public proof obligation that is discharged on the unchanged
 tree is refuted (named in the replay file); "stand-in" = the bounded stand-in produced a
-failing input that is replayed against the changed code. The last column counts
+failing input that is replayed against the changed code. {n_obl} changes refute at least
+one obligation ({n_obl - n_both} of them only that), {n_std} produce a failing input
+({n_std - n_both} only that). The last column counts
 obligations that went *undecided* on the changed tree (the change left the verified
 subset or the solvers found neither proof nor counter-model); those alone never raise a
 violation.
